@@ -45,6 +45,7 @@ structure Flags where
   unclaimed : Bool := false
   steal : Bool := false
   warm : Bool := false
+  after : Bool := false       -- (statistics only) the decision was taken after a reload
 deriving Repr
 
 structure St where
@@ -224,6 +225,7 @@ def stepOracle0 (s : St) (ts : List String) (line : String) : St × Option Strin
     let x := x.toNat?.getD 0
     let f : Flags := lookup ({} : Flags) s.flags x
     let f := if s.allUnclaimed then { f with unclaimed := true } else f
+    let f := { f with after := s.reloaded }
     ({ s with recA := s.recA.push (res, f) }, some "?")
   | ["t", _] => (s, none)
   | _ =>
@@ -238,7 +240,21 @@ def stepOracle (s : St) (ts : List String) (line : String) : St × Option String
   if r == some "bad-op" then (s', r)
   else if (resPart line).any (·.startsWith "PANIC") then (s', some "bad panic") else (s', r)
 
+/-- `oracle-stats` (measurement only): per case, how many decisions were taken after a reload and how many of those
+    the oracle claims -/
+def stepStats (s : St) (ts : List String) (line : String) : St × Option String :=
+  let (s', r) := stepOracle s ts line
+  match ts with
+  | ["phase", "B"] =>
+    let aft := s.recA.toList.filter fun p => p.2.after
+    let cl := aft.filter fun p => !p.2.unclaimed
+    let st := cl.filter fun p => p.1.any fun r => r.startsWith "block" || (r.splitOn "wait").length > 1
+    (s', some s!"{r.getD "-"} | after={aft.length} claimed={cl.length} claimed-block-or-wait={st.length}")
+  | _ => (s', r)
+
 def run (mode : String) : IO Unit :=
-  if mode == "oracle" then loop ({} : St) stepOracle else loop ({} : St) stepModel
+  if mode == "oracle" then loop ({} : St) stepOracle
+  else if mode == "oracle-stats" then loop ({} : St) stepStats
+  else loop ({} : St) stepModel
 
 end Sentinel.Drv.C14
